@@ -36,6 +36,24 @@ CLAIMS = {
         "(c) every length pack/unpack shift uses the info width. NOT decided: node copying, parent-index chaining, white-space bitmap caching, accessor behaviour, numeric values."),
   note='Trusted: clang 14 front end; reference transducer; scalar sub-parser contract. Bounds as C01.',
   design='5/C03'),
+ 'C04': dict(
+  category='proof',
+  technique='exact big-integer verification of constant tables (E5); interval abstract interpretation with call-site context and by-reference post-conditions for table subscripts (E3); guard-constant checks',
+  text=("Decides: (a) every initialised row of kPow10M128Tab equals floor(10^e 2^(127-floor(log2 10^e))) for e=-348..347, kPow10Tab[i] is the exact double 10^i, LSHIFT_TAB[k] == {digits(2^k), str(5^k)}, "
+        "kUint8PopCnt[i]==bit_length(i), kPowTab and the local pow10[] table; (b) every subscript into these tables is inside the initialised rows on all paths (interval analysis with "
+        "parameter ranges joined over call sites and callee post-conditions for by-reference arguments); (c) the exact fast-path guards lie inside the region where Clinger's argument applies "
+        "(|exp10|<=22(+15), mantissa < 2^53, normal-double window of ParseFloatingNormalFast, 2^63 / UINT64_MAX/10 / %10 integer boundaries, (217706 e)>>16 == floor(e log2 10) on the whole table range). "
+        "NOT decided: correct rounding, Eisel-Lemire bail-out logic, the big-decimal fallback, digit accumulation/truncation bookkeeping - numerical results are outside a sound static argument in reach."),
+  note='Trusted: clang 14 front end and constant evaluator; Python big integers/fractions; simd_str2int is analysed for its by-reference post-condition only; intrinsic result ranges (movemask, ctz).',
+  design='5/C04'),
+ 'C08': dict(
+  category='proof',
+  technique='exact table verification and exact-division theorem on reciprocal constants (E5); abstract evaluation of the SSE digit splitter from its IR for every 4-digit group; interval analysis of subscripts and argument ranges (E3)',
+  text=("Decides: (a) kDigits is 00..99 and the splat tables; (b) floor(n*m>>s)==floor(n/10^4) for all n<10^8 for the multiplier/shift bound from UtoaSSE's data flow (exact-division theorem), and UtoaSSE's actual intrinsic "
+        "pipeline, evaluated lane-exactly from the IR, yields the 8 decimal digits for every 4-digit group value in both halves (20017 inputs); (c) split points 10^8/10^16, every kDigits subscript within the array, "
+        "every call of the 8/16-digit vector routines passes a value below 10^8/10^16; (d) I64toa stores '-' and negates. NOT decided: end-to-end digit composition for all 2^64 values."),
+  note='Trusted: clang 14 front end; Intel lane semantics of 13 SSE2 intrinsics in sv/sse_interp.py; exact-division theorem (Hacker\'s Delight 10-9).',
+  design='5/C08'),
 }
 NA_REASON = {
  'C19': 'Agreement with a recursive merge model over (document, text) pairs; no structural clause that is a necessary condition without mirroring the handler code (DESIGN.md section 7).',
